@@ -31,6 +31,7 @@ class ProcessWorker(Worker):
         self._ctrl_comms = Pipe()
         self._is_child = False
         self._early_result = None # final result received while the child was still alive (see wait)
+        self._early_reader = None # thread receiving it
         super().__init__(*args, **kwargs)
         assert not self.is_child
         self._comms.child_end.close()
@@ -78,12 +79,12 @@ class ProcessWorker(Worker):
         # so joining it without reading would deadlock both sides
         ready = mp.connection.wait([self._comms.parent_end, self._child.sentinel], timeout)
         if self._comms.parent_end in ready and self._early_result is None:
-            try:
-                self._early_result = self._comms.parent_end.get()
-            except queue.Empty:
-                pass
-            except Exception:
-                logger.debug('Could not deserialize the final result of {}', self, exc_info=1)
+            # receiving takes as long as the child takes to send (it can be stopped half way), which is not ours to wait
+            # for beyond the timeout - receive aside and wait for that
+            if self._early_reader is None:
+                self._early_reader = threading.Thread(target=self._read_early_result, name=f'{self.name} (result reader)', daemon=True)
+                self._early_reader.start()
+            self._early_reader.join(timeout)
         if ready:
             self._child.join(timeout)
         alive = self._child.is_alive()
@@ -132,11 +133,21 @@ class ProcessWorker(Worker):
                 self._ctrl_comms.parent_end.close()
             return not alive
 
+    def _read_early_result(self):
+        try:
+            self._early_result = self._comms.parent_end.get()
+        except queue.Empty:
+            pass
+        except Exception:
+            logger.debug('Could not deserialize the final result of {}', self, exc_info=1)
+
     def _get_result(self):
         if self.is_alive():
             assert self._result is None
             return None
         if self._result is None:
+            if self._early_reader is not None:
+                self._early_reader.join() # the child is dead, whatever it has sent is there
             #assert not self._comms[0].empty()
             #self._comms.child_end.close()
             self._result = self._early_result
